@@ -45,7 +45,15 @@ def case_classes(repo):
     named = {}
     for (u, l, c, a), (first, n) in sorted(out.items()):
         name = "%s%s%s%s" % ("U" if u else "u", "L" if l else "l", "C" if c else "c", "A" if a else "")
-        named[name] = (bool(u), bool(l), bool(c), first, n, bool(a))
+        if c:
+            # a character that changes when lowercased: its full mapping has 1..3 characters and either starts
+            # with another character or (length >= 2) with the character itself. Which shapes occur is library
+            # data; all are taken as possible letters, so code that steps through the mapping by hand
+            # (`lower.next() == Some(c) && lower.next().is_none()`) is a function of the letter
+            for same, ln in ((False, 1), (False, 2), (False, 3), (True, 2), (True, 3)):
+                named["%s/%s%d" % (name, "s" if same else "d", ln)] = (bool(u), bool(l), True, first, n, bool(a), (same, ln))
+        else:
+            named[name] = (bool(u), bool(l), False, first, n, bool(a), (True, 1))
     return named, ver
 
 
@@ -64,11 +72,17 @@ def run(tier):
         c = args[0]
         if not au.is_ch(c):
             raise AnalysisError("to_lowercase of %r" % (c,))
-        return Opq("to_lower", (c,))
+        return Opq("to_lower", (c, 0))
+
+    def lower_elem(c, i):
+        same, ln = classes[c.name[2]][6]
+        if i == 0 and same:
+            return c
+        return Sym(("lower-elem", i, c.name[1], c.name[2]), "char")
 
     def for_each(w, m, st, callee, args, term):
         it = deref_all(m, st, args[0])
-        if isinstance(it, Opq) and it.kind == "to_lower":
+        if isinstance(it, Opq) and it.kind == "to_lower" and it.data[1] == 0:
             c = it.data[0]
             return _with_post(m, st, args[1], [Sym(("lower-all", c.name[1], c.name[2]), "char")], term, lambda mm, ss, v: ip.UNIT)
         return None
@@ -76,7 +90,7 @@ def run(tier):
     def extend(w, m, st, callee, args, term):
         # res.extend(c.to_lowercase()): appends the whole lowercase mapping of c
         it = deref_all(m, st, args[1])
-        if isinstance(it, Opq) and it.kind == "to_lower":
+        if isinstance(it, Opq) and it.kind == "to_lower" and it.data[1] == 0:
             c = it.data[0]
             return w.buf_push(m, st, args[0], Sym(("lower-all", c.name[1], c.name[2]), "char"))
         return None
@@ -90,7 +104,7 @@ def run(tier):
     def iter_cmp(neg):
         def h(w, m, st, callee, args, term):
             a, b = deref_all(m, st, args[0]), deref_all(m, st, args[1])
-            if isinstance(a, Opq) and isinstance(b, Opq) and {a.kind, b.kind} == {"to_lower", "once"} and a.data[0] == b.data[0] and au.is_ch(a.data[0]):
+            if isinstance(a, Opq) and isinstance(b, Opq) and {a.kind, b.kind} == {"to_lower", "once"} and a.data[0] == b.data[0] and au.is_ch(a.data[0]) and (a.data[1] if a.kind == "to_lower" else b.data[1]) == 0:
                 changes = classes[a.data[0].name[2]][2]  # to_lowercase(c) != [c]  iff  Changes_When_Lowercased
                 return ip.boolean(changes if neg else not changes)
             raise AnalysisError("iterator comparison of %r and %r" % (a, b))
@@ -98,10 +112,17 @@ def run(tier):
         return h
 
     def next_of_lower(w, m, st, callee, args, term):
-        it = deref_all(m, st, args[0])
+        from ..models import _innermost_ref
+
+        ref, it = _innermost_ref(m, st, args[0])
         if isinstance(it, Opq) and it.kind == "to_lower":
-            c = it.data[0]
-            return ip.some(Sym(("lower-first", c.name[1], c.name[2]), "char"))
+            c, pos = it.data
+            same, ln = classes[c.name[2]][6]
+            if pos >= ln:
+                return ip.none()
+            if isinstance(ref, Ref):
+                m.store(st, ref.loc, Opq("to_lower", (c, pos + 1)))
+            return ip.some(lower_elem(c, pos))
         return None
 
     CH = "core::char::methods::<impl char>::"
@@ -116,7 +137,24 @@ def run(tier):
         CH + "to_ascii_lowercase": lambda cls, c: Sym(("lower-all", c.name[1], cls), "char") if classes[cls][5] else c,
     }
     extra = {"alloc::str::<impl str>::to_lowercase": str_to_lowercase, TO_LOWER: to_lower, FOR_EACH: for_each, "<alloc::string::String as core::iter::traits::collect::Extend<char>>::extend": extend, ONCE: once, ITER_NE: iter_cmp(True), ITER_EQ: iter_cmp(False), "<core::char::ToLowercase as core::iter::traits::iterator::Iterator>::next": next_of_lower}
-    w = fcd.FcdWorld(prog, alpha, oracles, extra_oracles=extra)
+    class CaseWorld(fcd.FcdWorld):
+        def compare_hook(self, st, op, a, b):
+            # an element of c's lowercase mapping compared with c: the first element is c itself for the
+            # "starts with itself" shapes (then it *is* the same atom); every other element is another character
+            for x, y in ((a, b), (b, a)):
+                if isinstance(x, Sym) and isinstance(x.name, tuple) and x.name and x.name[0] == "lower-elem" and au.is_ch(y) and op in ("Eq", "Ne"):
+                    if x.name[2] == y.name[1] and x.name[3] == y.name[2]:
+                        if x.name[1] == 0:
+                            return op == "Ne"  # shape "d": the mapping starts with another character
+                        raise fcd.ClassRefinement("a later element of a character's lowercase mapping is compared with the character: not determined by the character classes")
+            return fcd.FcdWorld.compare_hook(self, st, op, a, b)
+
+        def describe_char(self, v):
+            if isinstance(v, Sym) and isinstance(v.name, tuple) and v.name and v.name[0] == "lower-elem":
+                return v.name
+            return fcd.FcdWorld.describe_char(self, v)
+
+    w = CaseWorld(prog, alpha, oracles, extra_oracles=extra)
     key = COMMON + "case_mapping_rule"
     info = fcd.analyse(prog, rep, "discipline", key, w)
     if info is not None:
@@ -144,8 +182,11 @@ def run(tier):
                 cwl = classes[a][2]
                 full = [("push", "lower-all", 0, a)]
                 ident = [("push", "char", 0, a)]
+                same, ln = classes[a][6]
+                # the same mapping pushed element by element (`for x in c.to_lowercase() { res.push(x) }`)
+                elems = [(("push", "char", 0, a) if (i == 0 and same) else ("push", "lower-elem", i, 0, a)) for i in range(ln)]
                 # (for a character that does not change, its full lowercase mapping *is* the character)
-                okk = (got == full) or (not cwl and got == ident)
+                okk = (got == full) or (got == elems) or (not cwl and got == ident)
                 rep.ob("discipline", "class %s ↦ %s" % (a, "full lowercase mapping" if cwl else "itself"), okk and per[a][1] == q0, "loop emits %s" % got, b.where(), key="discipline|map|%s" % a, sample=True)
             rep.ob("discipline", "end of input", end_res == ("Ok", "buffer") and not end_ev, "at end: %s %s" % (end_ev, end_res), b.where())
         except AnalysisError as e:
